@@ -192,6 +192,66 @@ def check_html(ctx, exp, tag, am, content, src):
     return out
 
 
+def hash_mod(s):
+    return sum(ord(c) for c in s)
+
+
+def nests(tags, child, parent):
+    """Whether `child` may be written inside `parent`, from the declared per-tag data (parents / content of the
+    allowed-HTML table), independently of the parser's derived permitted-parent sets."""
+    cp = tags[child].get("parents", [])
+    pc = tags[parent].get("content", [])
+    if tags[parent].get("no-end-tag") or not pc:
+        return False
+    if parent in cp:
+        return True
+    takes_flow = "flow" in pc or "*" in pc
+    takes_phrasing = takes_flow or "phrasing" in pc
+    if "*" in cp:
+        return takes_phrasing
+    if "flow" in cp and takes_flow:
+        return True
+    if "phrasing" in cp and takes_phrasing:
+        return True
+    return False
+
+
+def nested_cases(ctx):
+    tags = ctx.allowed_html_tags
+    names = sorted(t for t in tags if t not in HTML_SKIP)
+    for outer in names:
+        if tags[outer].get("no-end-tag"):
+            continue
+        for inner in names:
+            if inner == outer or not nests(tags, inner, outer):
+                continue
+            for am in (ATTRS[0], ATTRS[1]):
+                a = " " + attrstr(am) if am else ""
+                if tags[inner].get("no-end-tag"):
+                    yield outer, inner, am, None, "<%s>p<%s%s>q</%s>" % (outer, inner, a, outer)
+                else:
+                    yield outer, inner, am, "r", "<%s>p<%s%s>r</%s>q</%s>" % (outer, inner, a, inner, outer)
+
+
+def check_nested(ctx, outer, inner, am, content, src):
+    ctx.start_page("Tt")
+    root = ctx.parse("a " + src + " z")
+    nodes = [x for x in root.children if isinstance(x, WikiNode)]
+    texts = [x.strip() for x in root.children if isinstance(x, str)]
+    if len(nodes) != 1 or nodes[0].kind != K.HTML or nodes[0].sarg != outer or texts != ["a", "z"]:
+        return [("nested_element_stays_inside", dump(root)[2:], "text, HTML(%s)[p, HTML(%s), q], text" % (outer, inner))]
+    ch = nodes[0].children
+    inn = [x for x in ch if isinstance(x, WikiNode)]
+    if len(inn) != 1 or inn[0].kind != K.HTML or inn[0].sarg != inner or [x.strip() for x in ch if isinstance(x, str)] != ["p", "q"]:
+        return [("nested_element_stays_inside", sig(ch), ["p", "HTML(%s)" % inner, "q"])]
+    out = []
+    if inn[0].attrs != am:
+        out.append(("element_attrs", inn[0].attrs, am))
+    if sig(inn[0].children) != ([content] if content else []):
+        out.append(("element_content", sig(inn[0].children), [content] if content else []))
+    return out
+
+
 def arg_expect(exp, atom, kind):
     """Expected argument list for one written argument: plain text stays one verbatim string, a nested
     call / link becomes its node."""
@@ -285,6 +345,18 @@ def work(payload, skip, report):
             for o, ob, ex in res:
                 acc.violation(o, {"input": src, "tag": tag, "kind": "html", "spec": [tag, am, content, src]}, ob, ex)
         acc.sample({"html_tags": len([t for t in ctx.allowed_html_tags if t not in HTML_SKIP])})
+    elif kind == "nested":
+        for outer, inner, am, content, src in nested_cases(ctx):
+            if hash_mod(outer) % payload[2] != payload[1]:
+                continue
+            report(i)
+            i += 1
+            res = check_nested(ctx, outer, inner, am, content, src)
+            acc.case()
+            acc.distinct("inputs", src)
+            acc.count("nested_pairs")
+            for o, ob, ex in res:
+                acc.violation(o, {"input": src, "outer": outer, "inner": inner, "kind": "nested", "spec": [outer, inner, am, content, src]}, ob, ex)
     else:
         _, form = payload
         for args in call_cases():
@@ -315,6 +387,8 @@ def replay(case):
             _, res = check_full_2x2(ctx, exp, tuple(spec[0]), spec[1], spec[2])
         elif k == "html":
             res = check_html(ctx, exp, spec[0], spec[1], spec[2], spec[3])
+        elif k == "nested":
+            res = check_nested(ctx, spec[0], spec[1], spec[2], spec[3], spec[4])
         elif k == "call":
             _, res = check_call(ctx, exp, spec[0], spec[1])
         else:
@@ -330,6 +404,8 @@ def main(run):
     for f0 in range(len(CONT)):
         chunks.append(("full2x2", [f0]))
     chunks.append(("html",))
+    for k in range(8):
+        chunks.append(("nested", k, 8))
     for form in ("template", "parserfn", "param", "link", "extlink"):
         chunks.append(("call", form))
     for cid, acc, hung in run_chunks(work, chunks, nproc=run.nproc, case_timeout=30):
@@ -341,7 +417,8 @@ def main(run):
                 "maps, 3 header patterns, affine content assignments cell(i,j)=K[(a+b*i+c*j) mod 8] over 8 contents (text, template, "
                 "piped link, bold, italic, inline HTML, text with '!', two words); the full product of contents for 2x2 grids; every "
                 "paired and void tag of the allowed-HTML table (special-purpose tags excluded) x 4 attribute maps x 2 quote styles x 6 "
-                "contents; template / parser-function / parameter / link calls with every argument list of length <= 3 over %d atoms "
+                "contents; every ordered pair (outer, inner) of those tags where the declared parents/content data permit the nesting, "
+                "written <outer>p<inner>r</inner>q</outer> with and without an attribute map on the inner element; template / parser-function / parameter / link calls with every argument list of length <= 3 over %d atoms "
                 "and external links. distinct = distinct generated inputs." % (3 if q else 4, len(ARG_ATOMS)),
         "exhaustive": True,
     }
